@@ -68,7 +68,7 @@ def c01_file(draw):
         if draw(st.integers(0, 4)) == 0:
             lines = []
         else:
-            lines = draw(st.lists(G.decay_line(pool, def_names, mal_names), min_size=0, max_size=6))
+            lines = draw(st.lists(G.decay_line(pool, def_names, mal_names), min_size=0, max_size=draw(st.sampled_from((6,) * 15 + (25,)))))
         blocks.append({"k": "decay", "m": m, "lines": lines})
     inert = draw(st.lists(G.inert_statement(pool), min_size=0, max_size=6))
     # interleave: every non-block statement goes to a random slot between blocks
